@@ -41,6 +41,28 @@ EDITED OBJECTS (query -> edit -> check on the SAME object; the unedited input is
     relabel_node or reinsert_edge, which keep the number of nodes / of (time, hyperedge) pairs.
   What the edit did is read back through get_nodes() / get_edges() and counted ("edited inputs: node count unchanged, node
   set changed", ...).  An edit that the library rejects with an exception is skipped and counted (C09 says nothing about edits).
+ZERO / EXTREME WEIGHTS (weighted inputs whose weights are not "ordinary"; the library accepts all of them on the unchanged tree)
+  Every matrix of the statement except the weighted incidence is defined WITHOUT the weights (binary incidence, adjacency,
+  dual adjacency: (e, f) = 1 iff e and f share a node, tensor, temporal adjacency), and the weighted incidence entry is the
+  weight whatever it is, also 0.  So the same clauses are evaluated on
+  * every exhaustive weighted static and temporal input that has a hyperedge - all of those on labels 0..N-1, every 4th of
+    the relabelled ones - once more with its weights replaced, by position, by one of 8 profiles taken in turn: 0 / 0.0 in the
+    first, second or third position next to ordinary weights, all weights zero, all 1e-200 / 1e-300 (products underflow),
+    all 1e200 / 1e300 (products overflow), mixtures of these, a negative weight (-1.5);
+  * random static inputs (a third as many as above; also the uniform ones on 0..N-1, so the adjacency tensor is evaluated on
+    weighted inputs here) and random temporal inputs (a quarter as many), every weight drawn from
+    {0, 0.0, 1e-200, 1e200, 1e-300, 1e300, -1.5} with probability 1/2, at least one of them;
+  each built in one of three ways, in turn / drawn: add_edge(e, weight=w); the constructor (edge list, weights=[...]);
+  creation with ordinary weights followed by set_weight(e, w) ("switched off afterwards"), with no query in between.  (The
+  constructor of TemporalHypergraph refuses weights= when a hyperedge occurs at two times: those are built with add_edge.)
+  * reweight_extreme: every 11th exhaustive and every 2nd random ordinary weighted static input, every 7th of the static inputs
+    above, every 9th weighted temporal input (ordinary or above): queried completely, then ONE weight replaced by a value of
+    that set - set_weight(e, w) or (static) add_edge(e, weight=w), which accumulates - and only then checked.
+  Weights that the library rejects with an exception are skipped and counted (the statement does not oblige it to accept them).
+  The entries of the weighted incidence matrices (incidence_matrix, incidence_matrix_by_order on weighted inputs, and their
+  return_mapping=False counterparts) are copies of a weight and are compared relative to it, 1e-9 * |weight| (a weight of
+  1e-200 stored as 0 is a failure); where 0 is expected the bound is 1e-9 * the smallest non-zero |weight| of the hypergraph.
+  nan / inf weights are not generated.
 ONE STRESS INPUT (outside the <= 7 node scope, deterministic): 10 nodes, the 256 hyperedges {0,1} u S for
   every S c {2..9}: nodes 0 and 1 share 256 hyperedges (adjacency_matrix only).
 
@@ -196,21 +218,35 @@ def _close(a, b):
         return False
 
 
-def _mismatch(D, shape, expf):
+def _close_weight(scale0):
+    """Comparison for the entries of a WEIGHTED incidence matrix, which are copies of a weight (or 0): relative to the
+    weight itself (1e-9 * |weight|, so that a weight of 1e-200 is not 'equal' to 0), and where 0 is expected relative
+    to `scale0`, the smallest non-zero |weight| of the hypergraph (1 at most)."""
+    def close(a, b):
+        try:
+            return abs(a - b) <= TOL * (abs(b) if b != 0 else scale0)
+        except TypeError:
+            return False
+    return close
+
+
+def _mismatch(D, shape, expf, close=None):
     """None if D has `shape` and D[i][j] == expf(i, j) everywhere, else (where, expected, observed)."""
+    close = close or _close
     if tuple(D.shape) != tuple(shape):
         return ("shape", list(shape), list(D.shape))
     rows = D.tolist()
     for i in range(shape[0]):
         for j in range(shape[1]):
             e = expf(i, j)
-            if not _close(rows[i][j], e):
+            if not close(rows[i][j], e):
                 return ([i, j], e, rows[i][j])
     return None
 
 
-def _same(D1, D2):
-    return tuple(D1.shape) == tuple(D2.shape) and _mismatch(D1, D2.shape, lambda i, j, r=D2.tolist(): r[i][j]) is None
+def _same(D1, D2, close=None):
+    return tuple(D1.shape) == tuple(D2.shape) and \
+        _mismatch(D1, D2.shape, lambda i, j, r=D2.tolist(): r[i][j], close) is None
 
 
 def _normmap(mp):
@@ -274,11 +310,11 @@ class _Run:
         ok, shown = same(r)
         return self.check(ok, fn, NOMAP, call, expected=expected, observed=shown)
 
-    def nomap_matrix(self, fn, thunk, call, D):
+    def nomap_matrix(self, fn, thunk, call, D, close=None):
         def same(r):
             try:
                 R = _dense(r)
-                return _same(R, D), R.tolist()
+                return _same(R, D, close), R.tolist()
             except Exception:
                 return False, repr(r)
         return self.nomap(fn, thunk, call, same, D.tolist())
@@ -286,8 +322,8 @@ class _Run:
     def check(self, cond, fn, clause, call=None, expected=None, observed=None, key=None):
         return self.rec.check(cond, fn, clause, self.spec, call, expected, observed, key)
 
-    def matrix(self, fn, clause, call, D, shape, expf, key=None):
-        mm = _mismatch(D, shape, expf)
+    def matrix(self, fn, clause, call, D, shape, expf, key=None, close=None):
+        mm = _mismatch(D, shape, expf, close)
         if mm is None:
             return self.check(True, fn, clause, call, key=key)
         return self.check(False, fn, clause, call, expected=dict(where=mm[0], value=mm[1]),
@@ -310,17 +346,46 @@ def _build_hg(spec):
     """-> (the object, None) or, for an edited input, (the object, (nodes, hyperedges) before the edit)."""
     _, _, Hypergraph, _ = _lib()
     before = None
-    h = Hypergraph(weighted=bool(spec["weighted"]))
-    for n in spec.get("pre_nodes", []):
-        h.add_node(n)
     ws = spec.get("weights")
-    for k, e in enumerate(spec["edges"]):
-        if spec["weighted"]:
-            h.add_edge(tuple(e), weight=ws[k])
-        else:
-            h.add_edge(tuple(e))
-    for n in spec.get("post_nodes", []):
-        h.add_node(n)
+    wmode = spec.get("wmode")
+    if wmode:
+        # an input with zero / extreme weights; "weights" are the final ones.  How they get there:
+        #   add   add_edge(e, weight=w)                              ctor  Hypergraph(edges, weighted=True, weights=ws)
+        #   set   created with the ordinary weights "weights0", then set_weight(e, w) where w differs (no query between)
+        # The statement does not oblige the library to accept such weights: a rejection is a skipped case.
+        try:
+            with warnings.catch_warnings():
+                warnings.simplefilter("ignore")
+                if wmode == "ctor":
+                    h = Hypergraph([tuple(e) for e in spec["edges"]], weighted=True, weights=list(ws))
+                    for n in spec.get("pre_nodes", []) + spec.get("post_nodes", []):
+                        h.add_node(n)
+                else:
+                    h = Hypergraph(weighted=True)
+                    for n in spec.get("pre_nodes", []):
+                        h.add_node(n)
+                    w0 = spec["weights0"] if wmode == "set" else ws
+                    for k, e in enumerate(spec["edges"]):
+                        h.add_edge(tuple(e), weight=w0[k])
+                    for n in spec.get("post_nodes", []):
+                        h.add_node(n)
+                    if wmode == "set":
+                        for k, e in enumerate(spec["edges"]):
+                            if repr(w0[k]) != repr(ws[k]):
+                                h.set_weight(tuple(e), ws[k])
+        except Exception as ex:
+            raise InputRejected(f"{type(ex).__name__}: {ex}")
+    else:
+        h = Hypergraph(weighted=bool(spec["weighted"]))
+        for n in spec.get("pre_nodes", []):
+            h.add_node(n)
+        for k, e in enumerate(spec["edges"]):
+            if spec["weighted"]:
+                h.add_edge(tuple(e), weight=ws[k])
+            else:
+                h.add_edge(tuple(e))
+        for n in spec.get("post_nodes", []):
+            h.add_node(n)
     if spec.get("then"):
         # the same object is queried, edited and queried again: a representation (encoder, matrix, snapshot) computed
         # before the edit must not survive it.  The query is the complete set of calls that is checked afterwards (same
@@ -365,6 +430,10 @@ class EditRejected(Exception):
     pass
 
 
+class InputRejected(Exception):
+    """The library refused to build an input with a zero / extreme weight (allowed: the case is skipped)."""
+
+
 def _count_edit(rec, before, nodes, edges, wts):
     """Counters that say what the edit did to the sizes (evidence that size-preserving edits are really explored)."""
     n0, e0, w0 = before
@@ -389,6 +458,12 @@ def check_hg(rec, spec):
         rec.case(spec, nontrivial=False)
         rec.count("edited inputs skipped (the library rejected the edit)")
         return
+    except InputRejected:
+        rec.case(spec, nontrivial=False)
+        rec.count("zero / extreme weight inputs skipped (the library rejected the weights)")
+        return
+    if spec.get("wmode"):
+        rec.count("static inputs built with zero / extreme weights (" + spec["wmode"] + ")")
     _check_hg_object(rec, spec, h, before=before)
 
 
@@ -413,6 +488,14 @@ def _check_hg_object(rec, spec, h, register=True, before=None):
         rec.count("hypergraphs weighted")
     if nodeset - set().union(*esets):
         rec.count("hypergraphs with isolated nodes")
+    if weighted and any(w == 0 for w in wts):
+        rec.count("hypergraphs with a hyperedge of weight 0")
+    if weighted and any(w != 0 and not 1e-100 <= abs(w) <= 1e100 for w in wts):
+        rec.count("hypergraphs with a weight below 1e-100 or above 1e100 in absolute value")
+    if weighted and any(w < 0 for w in wts):
+        rec.count("hypergraphs with a negative weight")
+    # entries of the weighted incidence matrices are copies of a weight: compared relative to that weight
+    close_w = _close_weight(min([abs(w) for w in wts if w != 0] + [1.0]))
 
     def common(a, b, cols):
         return sum(1 for c in cols if a in esets[c] and b in esets[c])
@@ -437,9 +520,9 @@ def _check_hg_object(rec, spec, h, register=True, before=None):
             D, m = _dense(r[0]), _normmap(r[1])
             if run.bijection(fn, None, m, D.shape[0], nodeset, nodeset, r[1]):
                 run.matrix(fn, "entry (i,e) = weight of e if node i in e else 0", None, D, (N, E),
-                           lambda i, j: wts[j] if m[i] in esets[j] else 0)
+                           lambda i, j: wts[j] if m[i] in esets[j] else 0, close=close_w)
             if fn.startswith("linalg."):
-                run.nomap_matrix(fn, lambda: f(), "return_mapping=False", D)
+                run.nomap_matrix(fn, lambda: f(), "return_mapping=False", D, close=close_w)
 
     # ---- adjacency
     for fn, f in (("linalg.adjacency_matrix", lambda **kw: L.adjacency_matrix(h, **kw)),
@@ -482,13 +565,15 @@ def _check_hg_object(rec, spec, h, register=True, before=None):
                           expected=sorted(covered, key=repr), observed=_show(m))
             if weighted:
                 run.matrix(fn, "weighted: entry (i,e) = weight of the order-d hyperedge e if i in e else 0", cl, D,
-                           (len(m), len(cols)), lambda i, j: wts[cols[j]] if m[i] in esets[cols[j]] else 0)
+                           (len(m), len(cols)), lambda i, j: wts[cols[j]] if m[i] in esets[cols[j]] else 0,
+                           close=close_w)
             else:
                 run.matrix(fn, "unweighted: columns are the order-d hyperedges, entry (i,e) = 1 iff i in e", cl, D,
                            (len(m), len(cols)), lambda i, j: 1 if m[i] in esets[cols[j]] else 0)
             rawmaps[keep] = (r[1], m)
             if not keep:  # all defaults: keep_isolated_nodes=False, return_mapping=False
-                run.nomap_matrix(fn, lambda: L.incidence_matrix_by_order(h, d), f"order={d}, all defaults", D)
+                run.nomap_matrix(fn, lambda: L.incidence_matrix_by_order(h, d), f"order={d}, all defaults", D,
+                                 close=close_w if weighted else None)
         if weighted:
             continue  # the statement defines the remaining per-order matrices for unweighted hypergraphs only
         cl = f"order={d}"
@@ -620,15 +705,39 @@ def build_temporal(spec):
 def _build_temporal(spec):
     _, _, _, TemporalHypergraph = _lib()
     before = None
-    th = TemporalHypergraph(weighted=bool(spec["weighted"]))
-    for n in spec.get("pre_nodes", []):
-        th.add_node(n)
     ws = spec.get("weights")
-    for k, (t, e) in enumerate(spec["edges"]):
-        if spec["weighted"]:
-            th.add_edge(tuple(e), int(t), weight=ws[k])
-        else:
-            th.add_edge(tuple(e), int(t))
+    wmode = spec.get("wmode")
+    if wmode:  # zero / extreme weights, see _build_hg; a rejection is a skipped case
+        try:
+            with warnings.catch_warnings():
+                warnings.simplefilter("ignore")
+                if wmode == "ctor":
+                    th = TemporalHypergraph([tuple(e) for _, e in spec["edges"]], [int(t) for t, _ in spec["edges"]],
+                                            weighted=True, weights=list(ws))
+                    for n in spec.get("pre_nodes", []):
+                        th.add_node(n)
+                else:
+                    th = TemporalHypergraph(weighted=True)
+                    for n in spec.get("pre_nodes", []):
+                        th.add_node(n)
+                    w0 = spec["weights0"] if wmode == "set" else ws
+                    for k, (t, e) in enumerate(spec["edges"]):
+                        th.add_edge(tuple(e), int(t), weight=w0[k])
+                    if wmode == "set":
+                        for k, (t, e) in enumerate(spec["edges"]):
+                            if repr(w0[k]) != repr(ws[k]):
+                                th.set_weight(tuple(e), int(t), ws[k])
+        except Exception as ex:
+            raise InputRejected(f"{type(ex).__name__}: {ex}")
+    else:
+        th = TemporalHypergraph(weighted=bool(spec["weighted"]))
+        for n in spec.get("pre_nodes", []):
+            th.add_node(n)
+        for k, (t, e) in enumerate(spec["edges"]):
+            if spec["weighted"]:
+                th.add_edge(tuple(e), int(t), weight=ws[k])
+            else:
+                th.add_edge(tuple(e), int(t))
     if spec.get("then"):
         # query (the complete set of calls that is checked afterwards, into a recorder that is thrown away), edit, and
         # only then check: nothing computed before the edit may survive it
@@ -649,6 +758,8 @@ def _build_temporal(spec):
                             th.add_edge(tuple(op[2]), int(op[1]), weight=op[3])
                         else:
                             th.add_edge(tuple(op[2]), int(op[1]))
+                    elif op[0] == "set_weight":
+                        th.set_weight(tuple(op[2]), int(op[1]), op[3])
                     else:
                         raise AssertionError(f"unknown edit {op!r}")
         except AssertionError:
@@ -665,6 +776,12 @@ def check_temporal(rec, spec):
         rec.case(spec, nontrivial=False)
         rec.count("edited inputs skipped (the library rejected the edit)")
         return
+    except InputRejected:
+        rec.case(spec, nontrivial=False)
+        rec.count("zero / extreme weight inputs skipped (the library rejected the weights)")
+        return
+    if spec.get("wmode"):
+        rec.count("temporal inputs built with zero / extreme weights (" + spec["wmode"] + ")")
     _check_temporal_object(rec, spec, th, before=before)
 
 
@@ -689,6 +806,15 @@ def _check_temporal_object(rec, spec, th, register=True, before=None):
             if set(n0) == nodeset and set(e0) == set(tedges) and e0 != tedges:
                 rec.count("edited temporal inputs: same content, get_edges() order changed")
     rec.count("temporal hypergraphs")
+    if weighted:
+        try:  # (a counter only: the temporal matrices do not depend on the weights)
+            tw = [th.get_weight(tuple(e), t) for t, e in th.get_edges()]
+            if any(w == 0 for w in tw):
+                rec.count("temporal hypergraphs with a hyperedge of weight 0")
+            if any(w != 0 and not 1e-100 <= abs(w) <= 1e100 for w in tw):
+                rec.count("temporal hypergraphs with a weight below 1e-100 or above 1e100 in absolute value")
+        except Exception:
+            pass
     if len(times) > 1:
         rec.count("temporal hypergraphs with >= 2 times")
 
@@ -1010,6 +1136,93 @@ def random_temporal_specs(rng, n):
 STRESS = dict(kind="stress", common=[0, 1], others=[2, 3, 4, 5, 6, 7, 8, 9])
 
 
+# ------------------------------------------------------------------------ zero / extreme weights
+# Weights by position (as WEIGHTS above).  0 and 0.0 in every position, alone and together with ordinary weights, all
+# weights zero, weights whose products underflow (1e-200, 1e-300) or overflow (1e200, 1e300), mixtures, a negative weight.
+WEIGHT_PROFILES = [
+    [0, 2, 3, 2.5, 7],
+    [0.5, 0.0, 3, 0, 7],
+    [-1.5, 3, 0, 0.5, 0.0],
+    [0, 0.0, 0, 0.0, 0],
+    [1e-200, 1e-200, 1e-200, 1e-300, 1e-200],
+    [1e200, 1e200, 1e200, 1e300, 1e200],
+    [1e-200, 1e200, 0, 1, 1e-300],
+    [1e200, 0.0, 1e-200, -1.5, 2],
+]
+SPECIAL_WEIGHTS = [0, 0.0, 0, 1e-200, 1e200, 1e-300, 1e300, -1.5]
+WEIGHT_MODES = ("add", "ctor", "set")  # 3 modes x 8 profiles: every combination occurs (taken in turn)
+
+
+def _is_range(labels):
+    return all(type(a) is int for a in labels) and set(labels) == set(range(len(labels)))
+
+
+def _mode(sp, mode):
+    """The constructor of TemporalHypergraph refuses weights= when a hyperedge occurs at two times (whatever the weights):
+    such inputs are built with add_edge instead."""
+    if mode == "ctor" and sp["kind"] == "temporal" and len({frozenset(e) for _, e in sp["edges"]}) < len(sp["edges"]):
+        return "add"
+    return mode
+
+
+def extreme_weight_specs(specs, every_other=4):
+    """Every weighted input of `specs` (static or temporal) that has a hyperedge, with its weights replaced by one of the
+    WEIGHT_PROFILES and built in one of the WEIGHT_MODES (both taken in turn): all of those on labels 0..N-1, every
+    `every_other`-th of the others."""
+    q = skipped = 0
+    for sp in specs:
+        if not sp["weighted"] or not sp["edges"]:
+            continue
+        if not _is_range(sp["pre_nodes"]):
+            skipped += 1
+            if skipped % every_other:
+                continue
+        ne = len(sp["edges"])
+        prof = WEIGHT_PROFILES[q % len(WEIGHT_PROFILES)]
+        mode = _mode(sp, WEIGHT_MODES[q % len(WEIGHT_MODES)])
+        q += 1
+        ws = [prof[k % len(prof)] for k in range(ne)]
+        yield dict(sp, weights=ws, wmode=mode, weights0=list(sp["weights"]) if mode == "set" else None)
+
+
+def _extreme_draw(rng, sp, ordinary):
+    """sp (a random input, weighted or not) as a weighted input: every weight is special with probability 1/2, at least one is."""
+    ne = len(sp["edges"])
+    ws = [rng.choice(SPECIAL_WEIGHTS) if rng.random() < 0.5 else rng.choice(ordinary) for _ in range(ne)]
+    ws[rng.randrange(ne)] = rng.choice(SPECIAL_WEIGHTS)
+    mode = _mode(sp, rng.choice(WEIGHT_MODES))
+    return dict(sp, weighted=True, weights=ws, wmode=mode,
+                weights0=[rng.choice(ordinary) for _ in range(ne)] if mode == "set" else None)
+
+
+def random_extreme_specs(rng, n):
+    """Random static inputs as in random_specs (the uniform ones on 0..N-1 too: adjacency tensor), all weighted."""
+    for sp in random_specs(rng, n):
+        yield _extreme_draw(rng, sp, [0.5, 1, 2, 2.5, 3, 7, 0.1, 10])
+
+
+def random_extreme_temporal_specs(rng, n):
+    for sp in random_temporal_specs(rng, n):
+        yield _extreme_draw(rng, sp, [0.5, 1, 2, 3])
+
+
+def reweight_extreme_specs(rng, specs, every=1, offset=0):
+    """Weighted inputs (static or temporal) that are queried completely, then get ONE weight replaced by a zero / extreme
+    one - set_weight(e, w') or, static only, add_edge(e, weight=w') which accumulates - and are only then checked."""
+    for i, sp in enumerate(specs):
+        if i % every != offset or not sp["weighted"] or not sp["edges"] or sp.get("then"):
+            continue
+        k = rng.randrange(len(sp["edges"]))
+        w2 = rng.choice([w for w in SPECIAL_WEIGHTS if repr(w) != repr(sp["weights"][k])])
+        if sp["kind"] == "temporal":
+            t, e = sp["edges"][k]
+            then = [["set_weight", t, e, w2]]
+        else:
+            e = sp["edges"][k]
+            then = [["set_weight", e, w2]] if rng.random() < 0.7 else [["add_edge", e, w2]]
+        yield dict(sp, then=then, edit="reweight_extreme")
+
+
 # ----------------------------------------------------------------------------------------------- driver
 def _dispatch(rec, spec):
     {"hg": check_hg, "temporal": check_temporal, "stress": check_stress}[spec["kind"]](rec, spec)
@@ -1038,7 +1251,25 @@ def run(ctx):
     kept = list(preserving_specs(ctx.rng, ex, every=17, offset=3)) + list(preserving_specs(ctx.rng, rnd, every=3, offset=1))
     keptt = (list(preserving_temporal_specs(ctx.rng, ext, every=23, offset=5)) +
              list(preserving_temporal_specs(ctx.rng, rndt, every=2, offset=1)))
-    specs = ex + ext + [STRESS] + rnd + rndt + edited + kept + keptt
+    # zero / extreme weights (generated last, from their own draws: the inputs above are what they were without them)
+    xw = list(extreme_weight_specs(ex)) + list(random_extreme_specs(ctx.rng, n_rand // 3))
+    xwt = list(extreme_weight_specs(ext)) + list(random_extreme_temporal_specs(ctx.rng, n_rand_t // 4))
+    xwe = (list(reweight_extreme_specs(ctx.rng, ex, every=11, offset=4)) +
+           list(reweight_extreme_specs(ctx.rng, [sp for sp in rnd if sp["weighted"]], every=2)) +
+           list(reweight_extreme_specs(ctx.rng, xw, every=7, offset=2)) +
+           list(reweight_extreme_specs(ctx.rng, [sp for sp in ext + rndt if sp["weighted"]], every=9, offset=1)) +
+           list(reweight_extreme_specs(ctx.rng, xwt, every=9, offset=3)))
+    specs = ex + ext + [STRESS] + rnd + rndt + edited + kept + keptt + xw + xwt + xwe
+    ctx.count("inputs built with zero / extreme weights (static)", len(xw))
+    ctx.count("inputs built with zero / extreme weights (temporal)", len(xwt))
+    ctx.count("inputs queried, given a zero / extreme weight and queried again", len(xwe))
+    ctx.rule("zero / extreme weights: every exhaustive weighted input on labels 0..N-1 and every 4th of the two relabellings (static and "
+             "temporal) once more with its weights replaced by one of 8 profiles (0 / 0.0 in each position, all zero, 1e-200 / 1e-300, "
+             "1e200 / 1e300, mixtures, a negative weight), given through add_edge(weight=), the constructor (weights=) or set_weight "
+             "after creation with ordinary weights, in turn; random inputs as above (a third / a quarter as many) with every weight "
+             "special with probability 1/2; and weighted inputs (ordinary and these) queried completely, then set_weight(e, w) / "
+             "add_edge(e, weight=w) with such a w, then checked. Weights the library rejects with an exception are skipped "
+             "(degenerate case)")
     ctx.count("inputs queried, edited and queried again", len(edited) + len(kept) + len(keptt))
     ctx.count("inputs queried, edited by a size-preserving edit and queried again (static)", len(kept))
     ctx.count("inputs queried, edited by a size-preserving edit and queried again (temporal)", len(keptt))
@@ -1071,7 +1302,9 @@ def run(ctx):
                "in that order) - anchor 'column index = position in get_edges()'")
     ctx.assume("rows of laplacian_matrix_by_order (which returns no mapping) are read under the mapping returned by "
                "adjacency_matrix_by_order for the same order")
-    ctx.assume("entries are compared with tolerance 1e-9 * max(1, |expected|)")
+    ctx.assume("entries are compared with tolerance 1e-9 * max(1, |expected|); the entries of the weighted incidence matrices, which "
+               "are copies of a weight, with 1e-9 * |weight| (where 0 is expected: 1e-9 * the smallest non-zero |weight| of the "
+               "hypergraph, at most 1e-9)")
     ctx.assume("the abstract value of the input is what get_nodes / get_edges / get_weight / is_weighted return")
     ctx.exhaustive_parts.append(f"all hypergraphs on node set {{0..N-1}}, N<=4, <= {k_plain} hyperedges (labels 0..N-1, "
                                 f"unweighted) / <= {k_other} hyperedges (2 relabellings, weighted variants)" +
